@@ -381,6 +381,13 @@ impl Prop for C05 {
                         None => {
                             // fault index beyond the calls made: behaves like the fault-free run
                         }
+                        // the message fails by itself, exactly as predicted without the formatter
+                        // fault, and the formatter was only called again while it was being aborted
+                        // (to terminate or discard the partial response): the message's own error
+                        // stands; judged below like the fault-free run
+                        Some(fire) if fire.call == "message_end" && fire.sim_calls_at_fire == o.calls.len() && matches!((&pred.result, &o.result), (Err(x), Err(e)) if x.accepts(e)) => {
+                            stats.bump("formatter_fault_after_the_message_had_failed");
+                        }
                         Some(fire) => {
                             stats.fault("F6_formatter_call_fails");
                             match fire.call {
